@@ -343,6 +343,7 @@ pub mod cl {
             r is Ok ==> (r->Ok_0.cache.map@ == Map::<PartialDerivative, f64>::empty()
                           || (r->Ok_0.temperature == self.temperature && r->Ok_0.reduced_temperature == self.reduced_temperature)),
 //@rewrite? N5 expr Self::new_nvt($..a) => new_nvt($a)
+//@rewrite? N5 expr State::new_nvt($..a) => new_nvt($a)
 //@rewrite? N5 expr self.clone() => self.clone_state()
 //@end
     }
